@@ -286,7 +286,8 @@ class Ctx:
             subst = {"@SPINS@": "TRUE" if sw["retry_same_spins"] else "FALSE",
                      "@FORWARDS@": "TRUE" if sw["reprepare_fail_forwards"] else "FALSE",
                      "@HOLDS@": "TRUE" if sw["closing_holds_lock"] else "FALSE",
-                     "@STICKS@": "TRUE" if sw["retry_same_sticks"] else "FALSE"}
+                     "@STICKS@": "TRUE" if sw["retry_same_sticks"] else "FALSE",
+                     "@STOREUNDERREAD@": "TRUE" if sw.get("store_under_read_lock") else "FALSE"}
             for f in os.listdir(d):
                 if f.endswith(".cfg"):
                     t = open(os.path.join(d, f)).read()
